@@ -254,6 +254,13 @@ def is_chain(sc):
     return all(v == 1 for v in outs.values()) and all(v == 1 for v in ins.values())
 
 
+def branch_deco(b, rnd):
+    """workflow data mapping of the branch targets: the selected one maps the branch source (bdata), both map the graph input, or
+    neither takes data from any node (bnone: static value only)"""
+    r = rnd.random()
+    return dict(b, pick=rnd.randrange(2), pre=rnd.choice([0, 1, 1]), bdata=r < 0.4, bnone=r >= 0.65)
+
+
 def decorate_run(shapes, rnd, *, prefix):
     """Secondary dimensions of a streaming-run scenario, spread deterministically by the seeded generator."""
     out = []
@@ -263,9 +270,20 @@ def decorate_run(shapes, rnd, *, prefix):
             nodes.append({"name": name, "kind": kind, "cap": rnd.choice([0, 0, 1]), "k": rnd.choice([1, 2, 3]),
                           "okey": sh["mode"] != "wf" and rnd.random() < 0.25, "err": 0})
         sc = {"id": "%s%d" % (prefix, i), "mode": sh["mode"], "nodes": nodes, "edges": sh["edges"],
-              "branch": [dict(b, pick=rnd.randrange(2), pre=rnd.choice([0, 1, 1]), bdata=rnd.random() < 0.6) for b in sh["branch"]],
+              "branch": [branch_deco(b, rnd) for b in sh["branch"]],
               "handler": rnd.choice(["none", "none", "close", "read1", "drain"]),
               "read": rnd.choice([-1, 0, 0, 1, 1] if sh["branch"] else [-1, -1, 0, 1, 2]), "experr": False}
+        # fan-in at END of >= 2 streaming sources: half of these get sources of different lengths and a caller that stops after 1-2
+        # chunks, so that a short source's EOF is consumed by the merged reader before the early Close
+        ends = [a for a, b in sh["edges"] if b == "end"]
+        streaming = [n for n in nodes if n["name"] in ends and n["kind"] in ("S", "T")]
+        if len(streaming) >= 2 and rnd.random() < 0.5:
+            short = rnd.choice(streaming)
+            for n in streaming:
+                n["k"] = 1 if n is short else 3
+                n["cap"] = rnd.choice([0, 1])
+            sc["read"] = rnd.choice([1, 2, 2])
+            sc["handler"] = rnd.choice(["none", "none", "close"])
         if is_chain(sh) and rnd.random() < 0.8:
             prods = [n for n in nodes if n["kind"] == "S"]
             if prods:
